@@ -189,6 +189,8 @@ def judge(case, res):
     kind = case["expect"][0]
     if kind == "deliver":
         want_paths.append(case["expect"][1])
+        if case.get("after"):
+            want_paths.append(case["after"])
     if paths != want_paths:
         bad.append(("P2", "application calls %r, expected %r" % (paths, want_paths)))
     if kind == "deliver":
@@ -229,9 +231,9 @@ def judge(case, res):
 # ---------------------------------------------------------------------------
 # generators
 
-def ok_request(i, rng):
+def ok_request(i, rng, small=False):
     body = b"x" * rng.choice([0, 0, 1, 3])
-    if body:
+    if body and not small:
         if rng.random() < 0.5:
             return b"POST /ok%d HTTP/1.1\r\nHost: h\r\nContent-Length: %d\r\n\r\n%s" % (i, len(body), body)
         return b"POST /ok%d HTTP/1.1\r\nHost: h\r\nTransfer-Encoding: chunked\r\n\r\n%x\r\n%s\r\n0\r\n\r\n" % (
@@ -299,7 +301,7 @@ def gen_cases(rng, tier):
     reps = 1 if tier == "quick" else 6
 
     def finish(kind, mh, mb, prefix_n, msg, expect, cross_off, tail=AFTER, recv=None, tags=None):
-        pre = [ok_request(i, rng) for i in range(prefix_n)]
+        pre = [ok_request(i, rng, small=(mh < 100 or mb < 100)) for i in range(prefix_n)]
         stream = b"".join(pre) + msg + tail
         start = sum(len(p) for p in pre)
         recv = recv or rng.choice(recv_sizes)
@@ -310,6 +312,7 @@ def gen_cases(rng, tier):
         c = {"kind": kind, "mh": mh, "mb": mb, "reads": reads, "expect": expect, "recv": recv,
              "prefix_paths": ["/ok%d" % i for i in range(prefix_n)],
              "cross_read": None if cross_off is None else read_index_of(reads, start + cross_off),
+             "after": "/after" if tail == AFTER else None,
              "tags": tags or {}}
         return c
 
